@@ -19,6 +19,9 @@
 //                     draw, then 2 injection points); logs c<fiber>:<1 ok|0 spurious failure>
 //        y            yaclib_std::this_thread::yield
 //        s<d>         yaclib_std::this_thread::sleep_for(d ns)
+//        e            epoch = steady_clock::now() (a shared variable)      S<d>  this_thread::sleep_until(epoch + d ns)
+//        U<q>,<d>     raw FiberQueue::Wait(time_point epoch + d)           T<v>,<m>,<d>  condition_variable::wait_until(epoch + d)
+//                     (several fibers can so sleep until ONE common absolute deadline)
 //        l<m> u<m>    yaclib_std::mutex lock / unlock
 //        c<v>,<m>     condition_variable::wait(lock on m)                t<v>,<m>,<d>  wait_for(d ns); logs t<fiber>:<1 timeout|0>
 //        n<v> N<v>    notify_one / notify_all
@@ -113,7 +116,12 @@ std::int64_t ChooseRec(int kind, std::uint64_t n) {
   return -1;  // never decide
 }
 
+bool gShowAddr = false;  // debugging aid: print the address of every resumed fiber object (stderr)
 void ResumeRec(std::uint64_t id) {
+  if (gShowAddr) {
+    std::fprintf(stderr, "fiber %llu at %p (sizeof FiberBase %zu)\n", static_cast<unsigned long long>(id),
+                 static_cast<void*>(yaclib::fault::Scheduler::Current()), sizeof(yaclib::detail::fiber::FiberBase));
+  }
   rec.Tok("R" + std::to_string(id) + "@" + std::to_string(rec.sched != nullptr ? rec.sched->_time : 0));
 }
 
@@ -234,8 +242,10 @@ struct Parser {
         case 'w':
         case 'y':
         case 'p':
+        case 'e':
           break;
         case 's':
+        case 'S':
         case 'l':
         case 'u':
         case 'n':
@@ -249,11 +259,13 @@ struct Parser {
           break;
         case 'c':
         case 'Q':
+        case 'U':
           op.a = Num();
           Comma();
           op.b = Num();
           break;
         case 't':
+        case 'T':
           op.a = Num();
           Comma();
           op.b = Num();
@@ -291,6 +303,7 @@ struct World {
   std::deque<yaclib::detail::fiber::FiberQueue> qs;
   std::deque<yaclib_std::thread> slots;
   yaclib_std::atomic<int> shared{0};
+  yaclib_std::chrono::steady_clock::time_point epoch{};
   int phase = 0;
   World() : mtx(8), cvs(8), qs(8), slots(64) {
   }
@@ -350,6 +363,27 @@ void ExecOp(World& w, const Op& op, bool driver) {
     case 'q':
       w.qs[op.a].Wait(yaclib::detail::fiber::NoTimeoutTag{});
       break;
+    case 'e':
+      w.epoch = yaclib_std::chrono::steady_clock::now();
+      break;
+    case 'S':
+      yaclib_std::this_thread::sleep_until(w.epoch + std::chrono::nanoseconds(op.a));
+      break;
+    case 'U': {
+      auto st = w.qs[op.a].Wait(w.epoch + std::chrono::nanoseconds(op.b));
+      rec.Tok("t" + std::to_string(Me()) + ":" + (st == yaclib::detail::WaitStatus::Timeout ? "1" : "0"));
+      break;
+    }
+    case 'T': {
+      std::unique_lock<yaclib_std::mutex> lk(w.mtx[op.b], std::adopt_lock);
+      int calls = 0;
+      (void)w.cvs[op.a].wait_until(lk, w.epoch + std::chrono::nanoseconds(op.c), [&calls] {
+        return ++calls > 1;
+      });
+      lk.release();
+      rec.Tok("t" + std::to_string(Me()) + ":" + (calls == 2 ? "1" : "0"));
+      break;
+    }
     case 'Q': {
       auto st = w.qs[op.a].Wait(std::chrono::nanoseconds(op.b));
       rec.Tok("t" + std::to_string(Me()) + ":" + (st == yaclib::detail::WaitStatus::Timeout ? "1" : "0"));
@@ -527,6 +561,31 @@ void PhaseCoro(int) {
 }
 #endif
 
+// n threads do a different amount of work each and then all sleep until ONE common deadline (they enter the sleep in
+// scheduling order, not in creation order); after waking they contend on a counter.
+void PhaseUntil(int n) {
+  yaclib_std::atomic<int> counter{0};
+  const auto deadline = yaclib_std::chrono::steady_clock::now() + std::chrono::nanoseconds{3000};
+  std::vector<std::unique_ptr<yaclib_std::thread>> ts;
+  for (int i = 0; i < n; ++i) {
+    ts.push_back(std::make_unique<yaclib_std::thread>([&, i] {
+      for (int k = 0; k < (n - i) % 3 + 1; ++k) {
+        counter.fetch_add(1, std::memory_order_relaxed);
+      }
+      if (i % 2 == 1) {
+        yaclib_std::this_thread::sleep_for(std::chrono::nanoseconds(20 * (n - i)));
+      }
+      yaclib_std::this_thread::sleep_until(deadline);
+      int v = counter.fetch_add(1, std::memory_order_acq_rel);
+      Ev("woke" + std::to_string(i) + "#" + std::to_string(v));
+    }));
+  }
+  for (auto& t : ts) {
+    t->join();
+  }
+  Ev("until" + std::to_string(counter.load(std::memory_order_relaxed)));
+}
+
 void RunClient(const std::string& name, int size) {
   std::vector<std::function<void()>> phases;
   auto pool = [size] {
@@ -541,6 +600,9 @@ void RunClient(const std::string& name, int size) {
   auto coro = [size] {
     PhaseCoro(2 + size);
   };
+  auto until = [size] {
+    PhaseUntil(3 + size);
+  };
   if (name == "pool") {
     phases = {pool, pool, pool};
   } else if (name == "strand") {
@@ -549,8 +611,10 @@ void RunClient(const std::string& name, int size) {
     phases = {timed, timed};
   } else if (name == "coro") {
     phases = {coro, coro};
+  } else if (name == "until") {
+    phases = {until, until, until};
   } else if (name == "mix") {
-    phases = {pool, strand, timed, coro, pool};
+    phases = {pool, until, strand, timed, coro, until};
   } else {
     std::fprintf(stderr, "unknown client %s\n", name.c_str());
     std::exit(2);
@@ -594,11 +658,46 @@ void Restore() {
   yaclib::fiber::SetInjectorState(cfg.state);
 }
 
+// Perturbation of the allocation history: before a run, blocks of about the size of a fiber object are allocated and
+// every second one is really freed (std::free, not the no-op operator delete) in a seeded random order, so that the
+// fiber objects created afterwards get addresses whose order has nothing to do with their creation order and differs
+// from run to run.  Nothing the fault layer decides may depend on that.
+std::uint64_t gPerturb = 0;
+int gPerturbFrom = 0;
+std::vector<void*> gPerturbKeep;  // global: the compiler must not elide the allocations
+void* volatile gPerturbSink = nullptr;
+void PerturbHeap(std::uint64_t seed) {
+  std::mt19937_64 r{seed * 0x9E3779B97F4A7C15ULL + 12345};
+  const std::size_t base = sizeof(yaclib::detail::fiber::FiberBase);
+  std::vector<void*> victims;
+  for (std::size_t k = 0; k != 24; ++k) {
+    const std::size_t size = base + 8 * k;
+    const std::size_t n = 12 + r() % 24;
+    for (std::size_t i = 0; i != n; ++i) {
+      void* a = std::malloc(size);
+      void* keep = std::malloc(size);  // stays allocated: the freed neighbours cannot coalesce
+      std::memset(a, 0x5a, size);
+      std::memset(keep, 0xa5, size);
+      gPerturbSink = a;
+      gPerturbKeep.push_back(keep);
+      victims.push_back(a);
+    }
+  }
+  std::shuffle(victims.begin(), victims.end(), r);
+  for (void* v : victims) {
+    gPerturbSink = v;
+    std::free(v);
+  }
+}
+
 void OneRun(int run_index, const std::string& label, const std::vector<Op>* prog, const std::string& client, int size,
             yaclib::fault::Scheduler* shared_sched) {
   rec.trace.clear();
   rec.asserts.clear();
   checkpoints.clear();
+  if (gPerturb != 0 && run_index >= gPerturbFrom) {
+    PerturbHeap(gPerturb + static_cast<std::uint64_t>(run_index));
+  }
   ApplyCfg();
   std::unique_ptr<yaclib::fault::Scheduler> own;
   yaclib::fault::Scheduler* sched = shared_sched;
@@ -728,6 +827,12 @@ int main(int argc, char** argv) {
       cfg.count = num();
     } else if (a == "--state") {
       cfg.state = static_cast<std::uint32_t>(num());
+    } else if (a == "--show-addr") {
+      gShowAddr = true;
+    } else if (a == "--perturb") {
+      gPerturb = num();
+    } else if (a == "--perturb-from") {
+      gPerturbFrom = static_cast<int>(num());
     } else if (a == "--heap-reuse") {
       gHeapNoReuse = false;
     } else if (a == "--dump-draws") {
